@@ -365,6 +365,12 @@ func main() {
 	if r.ViolationCount() != v0 {
 		restore(dir, pristine)
 	}
+	// controllers whose pairing is removed while they verify
+	v0 = r.ViolationCount()
+	r.Guard("removed controllers", func() { removedControllers(r, w) })
+	if r.ViolationCount() != v0 {
+		restore(dir, pristine)
+	}
 	// concurrent phase (this build, then a child built with the race detector)
 	v0 = r.ViolationCount()
 	r.Guard("concurrent", func() { mergeConcurrent(r, concurrentPhase(w, r.Seed, r.Pick(1500, 20000)), "plain") })
